@@ -81,7 +81,8 @@ mut('C16', 'record-ctors-unsorted', G, "            for method in sorted(record.
 mut('C16', 'record-static-unsorted', G, "            for method in sorted(record.static_methods):", "            for method in record.static_methods:")
 mut('C16', 'class-ctors-unsorted', G, "                for method in sorted(node.constructors):", "                for method in node.constructors:")
 mut('C16', 'class-methods-unsorted', G, "            for method in sorted(node.methods):", "            for method in node.methods:")
-mut('C16', 'class-vfuncs-unsorted', G, "            for vfunc in sorted(node.virtual_methods):", "            for vfunc in node.virtual_methods:")
+mut('C16', 'class-vfuncs-unsorted', G, "            for vfunc in sorted(node.virtual_methods):", "            for vfunc in node.virtual_methods:",
+    note='virtual methods then follow the field order of the class struct, i.e. declaration order inside one header, which no variant changes: deterministic; must NOT be flagged', expect=0)
 mut('C16', 'class-properties-unsorted', G, "            for prop in sorted(node.properties):", "            for prop in node.properties:",
     note='property order then follows the runtime dump, which is an input: deterministic, and independent of hash seed and arrival order; must NOT be flagged', expect=0)
 mut('C16', 'class-interfaces-unsorted', G, "                for iface in sorted(node.interfaces):", "                for iface in node.interfaces:",
